@@ -163,6 +163,39 @@ def run(R, tier, seed, driver_ok):
                         R.violation(f'{name}/fit-raises-{type(e).__name__}/dropped', f'{name}: fitting without the unlabeled rows raised {type(e).__name__}: {str(e)[:160]}', case)
                 if M2.shape != Ms.shape or np.abs(M2 - Ms).max() > 1e-9 * max(np.abs(Ms).max(), 1e-300):
                     R.violation(f'{name}/unlabeled-points-matter', f'{name}: changing the feature rows of unlabeled points changes the learned metric (max diff {np.abs(M2 - Ms).max() if M2.shape == Ms.shape else "shape"})', case)
+    # ---- the labels in other spellings: digit strings, floats, Python ints in an object array denote the same classes as
+    #      the integers (the Constraints helper reads labels through an integer cast); words are rejected with ValueError
+    for name in SUP:
+        d = int(rng.randint(2, 4))
+        X, y = zoo.blobs(rng, d, 3, 7)
+        yl = y.copy(); yl[rng.choice(len(y), 3, replace=False)] = -1
+        params = zoo.fix_params(name, dict(zoo.default_params(name, rng, d), random_state=7), X, yl)
+        if name == 'SDML_Supervised':
+            params['balance_param'] = zoo.sdml_safe_balance(name, X, None, {'n_constraints': 20 * 9})
+        if name == 'SCML_Supervised':
+            params['basis'] = ['triplet_diffs', 'lda'][int(rng.randint(2))]
+        try:
+            with warnings.catch_warnings():
+                warnings.simplefilter('ignore')
+                Mref = zoo.CLASSES[name](**params).fit(X, yl).get_mahalanobis_matrix()
+        except RuntimeError:
+            continue
+        for tag, yy in (('digit-strings', yl.astype(str)), ('floats', yl.astype(float)), ('object-ints', yl.astype(object)), ('words', np.array(['u', 'a', 'b', 'c'])[yl + 1])):
+            R.case(('c08-labels', name, tag, X.tobytes().hex()[:32]), True, branch=f'labels-{tag}')
+            case = {'est': name, 'labels': tag, 'params': {k: (v if not isinstance(v, np.ndarray) else 'array') for k, v in params.items()}}
+            try:
+                with warnings.catch_warnings():
+                    warnings.simplefilter('ignore')
+                    M2 = zoo.CLASSES[name](**params).fit(X, yy).get_mahalanobis_matrix()
+                if tag == 'words':
+                    R.violation(f'{name}/labels-words-accepted', f'{name}: labels that are words were accepted', case)
+                elif M2.shape != Mref.shape or np.abs(M2 - Mref).max() > 1e-9 * max(np.abs(Mref).max(), 1e-300):
+                    R.violation(f'{name}/labels-{tag}-differ', f'{name}: labels given as {tag} give another metric than the same labels as integers', case)
+            except ValueError:
+                if tag != 'words' and not (tag == 'object-ints' and params.get('basis') == 'lda'):
+                    R.violation(f'{name}/labels-{tag}-ValueError', f'{name}: labels given as {tag} raise ValueError', case)
+            except Exception as e:
+                R.violation(f'{name}/labels-{tag}-{type(e).__name__}', f'{name}: labels given as {tag} raise {type(e).__name__}: {str(e)[:100]}', case)
     R.extra['traces_validated_against_impl'] = R.evaluations
 
 
